@@ -212,7 +212,7 @@ pub fn eval(case: &Case) -> Out {
 }
 
 pub fn run(ctx: &Ctx) -> i32 {
-    let cases = ctx.tier.pick(6_000, 250_000);
+    let cases = ctx.tier.pick(24_000, 600_000);
     let long = ctx.tier == Tier::Thorough;
     let agg = run_prop(ctx, "case-c17", 16, cases, move || strategy(long), |case: &Case| {
         let o = eval(case);
